@@ -1,6 +1,7 @@
 import Feox.Props.C10
 import Feox.Fmt.WriteRead
 import Feox.Fmt.Commit
+import Feox.Fmt.CleanCheck
 /-!
 # C10 (continued) — the writer's bytes are what the reader accepts
 
@@ -30,5 +31,17 @@ theorem blank_block_is_free : LooksFree (zeros BSZ) := zero_block_looks_free
 
 /-- the hypotheses are satisfiable: the two example records of `Props/C10` are within the store's limits -/
 example : (⟨[107, 49], 5, 1700000000, 0⟩ : RecMeta).key.length ≤ MAX_KEY_SIZE ∧ 0 < (5 : Nat) ∧ 5 ≤ MAX_VALUE_SIZE := by decide
+
+/-- **An independent reader of a flushed and closed file**: when the run-time decision `openCleanB`
+accepts a device file together with the store's index (evaluated on every such file of the
+correspondence runs), the whole open of the documented layout — `recoverImage`: size, metadata copies,
+journal, scan, retirement, tail — succeeds without writing a byte and shows one entry per index entry,
+newest-wins over exactly the records of the index. -/
+theorem clean_file_reads_back_as_its_index {img : Image} {size : Nat} {lives : List Live} {o : Opts}
+    (hro : o.readOnly = false) (httl : o.ttlOn = false) (h : openCleanB img size lives = true) :
+    ∃ (r : Recovered) (L : List Feox.Proto.Rec), (recoverImage img size o).result = .ok r ∧ (recoverImage img size o).io = [] ∧
+      r.image = img ∧ L.length = lives.length ∧
+      r.live = L.foldl (fun lv r => absorbLive lv (liveOf (infoOf lives) r)) [] :=
+  openCleanB_sound hro httl h
 
 end Feox.C10
